@@ -35,3 +35,4 @@ def rules(ctx):
     S.oldest_search_rules(ctx)
     S.snapshot_atomic_rules(ctx)
     S.round4_residue_rules(ctx)
+    S.round5_rules(ctx)
